@@ -167,9 +167,54 @@ func (o *OracleC09) AtEnd(s *Sim) {
 				// the repository's formal-models/README): some validators are (pre)commit-
 				// locked in a lower view while the others have moved to a higher one.
 				class = "stall_commit_lock_across_views"
+			} else if locked && o.crashLock(minH) {
+				// Known protocol-level lock of dBFT 2.0: some validators committed in view v, a
+				// validator that had already been heard at this height stopped for good (so it
+				// is not counted as lost), and the remaining ones - fewer than M - ask for a
+				// view change and therefore ignore the preparations that would let them commit.
+				class = "stall_commit_lock_with_crashed_node"
 			}
 			s.Violate("C09", class, fmt.Sprintf("%s is at height %d, %d expected within %d*T after GST (base %d, run ended by %q at %.1f s):%s", n, n.tip().Idx, o.base+o.K, 400, o.base, s.st.Truncated, float64(s.now)/1e9, state), n.id)
 			return
 		}
 	}
+}
+
+// crashLock recognises the state "commit-locked validators + a stopped validator that was
+// heard at this height + fewer than M view-changing validators that count at most F
+// committed-or-lost nodes": by the rules of dBFT 2.0 nothing can move in it.
+func (o *OracleC09) crashLock(h uint32) bool {
+	var down []*Node
+	for _, n := range o.s.nodes {
+		if n.kind != FSplit && n.ident < o.s.sc.NIdent && !n.up {
+			down = append(down, n)
+		}
+	}
+	if len(down) == 0 {
+		return false
+	}
+	free := 0
+	view := -1
+	for _, m := range o.live() {
+		if m.d == nil || m.d.BlockIndex != h {
+			return false
+		}
+		if view >= 0 && int(m.d.ViewNumber) != view {
+			return false
+		}
+		view = int(m.d.ViewNumber)
+		if m.d.CommitSent() || m.d.PreCommitSent() {
+			continue
+		}
+		free++
+		if !m.d.ViewChanging() || m.d.CountCommitted()+m.d.CountFailed() > m.d.F() {
+			return false
+		}
+		for _, dn := range down {
+			if ls := m.d.LastSeenMessage[dn.ident]; ls == nil || ls.Height < h {
+				return false
+			}
+		}
+	}
+	return free > 0 && free < o.live()[0].d.M()
 }
